@@ -66,6 +66,49 @@ end Teos
 
 namespace Teos
 
+@[simp] theorem Db.removeAppts_users (d : Db) (ks : List Uuid) : (d.removeAppts ks).users = d.users := by
+  unfold Db.removeAppts Db.dropAppts
+  split
+  · split <;> rfl
+  · rfl
+
+theorem Db.removeAppts_appts (d : Db) (ks : List Uuid) (k : Uuid) :
+    (d.removeAppts ks).appts k = if k ∈ ks then none else d.appts k := by
+  unfold Db.removeAppts Db.dropAppts
+  split
+  · rename_i k0
+    split
+    · rfl
+    · rename_i h
+      by_cases e : k = k0
+      · subst e; simp at h; simp [h]
+      · simp [e]
+  · rfl
+
+theorem Db.removeAppts_trackers_ne (d : Db) (ks : List Uuid) (k : Uuid) (h : k ∉ ks) :
+    (d.removeAppts ks).trackers k = d.trackers k := by
+  unfold Db.removeAppts Db.dropAppts
+  split
+  · split
+    · simp only; rw [if_neg h]
+    · rfl
+  · simp only; rw [if_neg h]
+
+/-- with the foreign key (no tracker without its appointment) a deleted key has no tracker left -/
+theorem Db.removeAppts_trackers_mem (d : Db) (ks : List Uuid) (k : Uuid) (h : k ∈ ks)
+    (hfk : d.appts k = none → d.trackers k = none) : (d.removeAppts ks).trackers k = none := by
+  unfold Db.removeAppts Db.dropAppts
+  split
+  · rename_i k0
+    have e : k = k0 := by simpa using h
+    subst e
+    split
+    · simp
+    · rename_i hn
+      simp at hn
+      exact hfk hn
+  · simp [h]
+
 /-- `FrameK k s s'`: going from `s` to `s'` touched at most the appointment/tracker stored under
 key `k` and the subscription record of its owner `k.2`. -/
 structure FrameK (k : Uuid) (s s' : Tower) : Prop where
@@ -128,8 +171,9 @@ theorem frame_handleBreach (s : Tower) (node : Node) (k : Uuid) (d p : TxId) (u 
 
 theorem frame_removeAppts_single (k : Uuid) (s : Tower) :
     FrameK k s { s with db := s.db.removeAppts [k] } := by
-  refine ⟨fun _ _ => rfl, fun _ _ => rfl, fun k' hk => ?_, fun k' hk => ?_⟩ <;>
-    simp [Db.removeAppts, hk]
+  refine ⟨fun _ _ => by simp, fun _ _ => rfl, fun k' hk => ?_, fun k' hk => ?_⟩
+  · simp [Db.removeAppts_appts, hk]
+  · exact Db.removeAppts_trackers_ne _ _ _ (by simpa using hk)
 
 theorem frame_deleteAppointments_single_norefund (k : Uuid) (s : Tower) :
     FrameK k s (deleteAppointments s [k] false) := by
@@ -328,7 +372,7 @@ theorem rebroadcastStaleTxs_users (s : Tower) (node : Node) (height : Nat) :
 theorem deleteAppointments_norefund_users (s : Tower) (ks : List Uuid) :
     (deleteAppointments s ks false).mem.users = s.mem.users ∧
     (deleteAppointments s ks false).db.users = s.db.users := by
-  simp [deleteAppointments, Db.removeAppts]
+  simp [deleteAppointments]
 
 end Teos
 
